@@ -506,7 +506,7 @@ func c11NewWriter(w io.Writer, schema *parquet.Schema, cfg *c11Cfg) (pw *parquet
 }
 
 // write the sources through WriteRowGroup under cfg; the library globals are held for the call
-func c11WriteRowGroups(schema *parquet.Schema, cfg *c11Cfg, srcs []*c11Source, disable bool) (out c11Out) {
+func c11WriteRowGroups(schema *parquet.Schema, cfg *c11Cfg, prefix []parquet.Row, srcs []*c11Source, disable bool) (out c11Out) {
 	defer func() {
 		if r := recover(); r != nil {
 			out.err = fmt.Errorf("PANIC: %v", r)
@@ -517,6 +517,19 @@ func c11WriteRowGroups(schema *parquet.Schema, cfg *c11Cfg, srcs []*c11Source, d
 	if err != nil {
 		out.err = err
 		return
+	}
+	// rows the destination writer already buffers (Write/WriteRows without Flush) when the row
+	// group arrives
+	for i := 0; i < len(prefix); {
+		j := i + 1 + i%3
+		if j > len(prefix) {
+			j = len(prefix)
+		}
+		if _, err := pw.WriteRows(prefix[i:j]); err != nil {
+			out.err = err
+			return
+		}
+		i = j
 	}
 	c11Mu.Lock()
 	func() {
@@ -646,6 +659,7 @@ type c11Case struct {
 	valTexts  []string
 	srcDesc   string
 	keyCol    int // column of the sort key in the destination schema (-1 = none)
+	prefix    int // number of rows (the first rows of Rows()) the destination already buffers
 }
 
 // settings oracle: `got` (written through WriteRowGroup) must honour B's settings as far as `ref`
@@ -783,6 +797,75 @@ func aspectClass(a string) string {
 	return a
 }
 
+// c11Split: the row groups n buffered rows are flushed as
+func c11Split(n, maxRows int64) (out []int64) {
+	for maxRows > 0 && n > maxRows {
+		out = append(out, maxRows)
+		n -= maxRows
+	}
+	if n > 0 {
+		out = append(out, n)
+	}
+	return
+}
+
+// c11BloomMisses: every value stored in a chunk that carries a bloom filter must be found by it
+func c11BloomMisses(file []byte) (misses []string, err error) {
+	defer func() {
+		if r := recover(); r != nil {
+			err = fmt.Errorf("PANIC: %v", r)
+		}
+	}()
+	f, err := parquet.OpenFile(bytes.NewReader(file), int64(len(file)))
+	if err != nil {
+		return nil, err
+	}
+	for gi, rg := range f.RowGroups() {
+		for ci, cc := range rg.ColumnChunks() {
+			bf := cc.BloomFilter()
+			if bf == nil {
+				continue
+			}
+			pages := cc.Pages()
+			for {
+				p, err := pages.ReadPage()
+				if err == io.EOF {
+					break
+				}
+				if err != nil {
+					pages.Close()
+					return misses, err
+				}
+				vr := p.Values()
+				buf := make([]parquet.Value, 256)
+				for {
+					n, err := vr.ReadValues(buf)
+					for _, v := range buf[:n] {
+						if v.IsNull() {
+							continue
+						}
+						ok, cerr := bf.Check(v)
+						if cerr != nil {
+							parquet.Release(p)
+							pages.Close()
+							return misses, cerr
+						}
+						if !ok && len(misses) < 3 {
+							misses = append(misses, fmt.Sprintf("row group %d column %d value %v", gi, ci, gen.TripleOf(v)))
+						}
+					}
+					if err != nil {
+						break
+					}
+				}
+				parquet.Release(p)
+			}
+			pages.Close()
+		}
+	}
+	return misses, nil
+}
+
 func rowGroupSizes(info [][]c11Chunk) []int64 {
 	var out []int64
 	for _, rg := range info {
@@ -801,7 +884,7 @@ func c11Run(ctx *core.Ctx, env *c11Env, d interface {
 		kinds = append(kinds, fmt.Sprintf("%T", s.rg))
 	}
 	detail := func(extra map[string]any) map[string]any {
-		m := map[string]any{"type": c.entry.Name, "kind": c.kind, "source": c.srcDesc, "row_group_types": kinds, "config_A": c.a.Desc, "config_B": c.b.Desc, "rows": c.valTexts}
+		m := map[string]any{"type": c.entry.Name, "kind": c.kind, "source": c.srcDesc, "row_group_types": kinds, "config_A": c.a.Desc, "config_B": c.b.Desc, "rows": c.valTexts, "rows_buffered_in_destination_before_WriteRowGroup": c.prefix}
 		if len(c.valTexts) > 30 {
 			m["rows"] = append(append([]string{}, c.valTexts[:30]...), fmt.Sprintf("... %d rows, regenerate with the run seed (stream c11/%s)", len(c.valTexts), c.entry.Name))
 		}
@@ -883,12 +966,19 @@ func c11Run(ctx *core.Ctx, env *c11Env, d interface {
 	}
 
 	// ---- the three files
-	out := c11WriteRowGroups(c.schema, c.b, c.srcs, false)
+	if c.prefix > len(want) {
+		c.prefix = len(want)
+	}
+	prefix := want[:c.prefix]
+	if c.prefix > 0 {
+		ctx.Hist("destination-buffers-rows-before-WriteRowGroup", c.kind)
+	}
+	out := c11WriteRowGroups(c.schema, c.b, prefix, c.srcs, false)
 	if out.err != nil {
 		ctx.Fail("L1", "write-row-group-error "+sig+" "+errClass(out.err), "WriteRowGroup failed on a valid row group: "+out.err.Error(), detail(nil))
 		return
 	}
-	off := c11WriteRowGroups(c.schema, c.b, c.srcs, true)
+	off := c11WriteRowGroups(c.schema, c.b, prefix, c.srcs, true)
 	if off.err != nil {
 		ctx.Fail("L1", "write-row-group-error(disabled) "+sig+" "+errClass(off.err), "WriteRowGroup with both fast paths disabled failed: "+off.err.Error(), detail(nil))
 		return
@@ -896,7 +986,7 @@ func c11Run(ctx *core.Ctx, env *c11Env, d interface {
 	if off.copyN != 0 || off.reencN != 0 {
 		ctx.Fail("L2", "disable-switches-ignored "+sig, fmt.Sprintf("fast path counters moved (copy %d, reencode %d) although both disable switches are on", off.copyN, off.reencN), detail(nil))
 	}
-	ref, err := c11WriteRows(c.schema, c.b, want)
+	ref, err := c11WriteRows(c.schema, c.b, append(append([]parquet.Row{}, prefix...), want...))
 	if err != nil {
 		ctx.Fail("L1", "row-path-error "+sig+" "+errClass(err), "writing the rows of Rows() one by one failed: "+err.Error(), detail(nil))
 		return
@@ -955,6 +1045,21 @@ func c11Run(ctx *core.Ctx, env *c11Env, d interface {
 	known := true
 	var sh gen.Shredder
 	nrows := 0
+	for left := c.prefix; left > 0 && known; { // the buffered rows are the first rows of the sources
+		for _, s := range c.srcs {
+			if s.rows == nil {
+				known = false
+				break
+			}
+			for _, rv := range s.rows {
+				for i := 0; i < rv.Len() && left > 0; i++ {
+					sh.ShredRow(c.entry.Schema, rv.Index(i))
+					left--
+				}
+			}
+		}
+		break
+	}
 	for _, s := range c.srcs {
 		if s.rows == nil {
 			known = false
@@ -1005,6 +1110,22 @@ func c11Run(ctx *core.Ctx, env *c11Env, d interface {
 		}
 	}
 
+	// ---- L1c: configured bloom filters contain every stored value
+	if len(c.b.Bloom) > 0 {
+		misses, err := c11BloomMisses(out.file)
+		if err != nil {
+			ctx.Fail("L1", "bloom-filter-unreadable "+sig+" "+errClass(err), "bloom filters of the output cannot be checked: "+err.Error(), detail(extra))
+		} else if len(misses) > 0 {
+			if refMisses, _ := c11BloomMisses(ref); len(refMisses) > 0 {
+				ctx.Hist("bloom-miss-on-row-path-too", c.kind) // not specific to WriteRowGroup (C07)
+			} else {
+				extra["missed"] = misses
+				ctx.Fail("L1", "bloom-filter-misses-stored-value "+pathSig, "a bloom filter written through WriteRowGroup answers absent for a value stored in its chunk: "+misses[0], detail(extra))
+			}
+		}
+		ctx.Hist("bloom-containment-checked", c.kind)
+	}
+
 	// ---- L2: counters vs the Lean mirror
 	if describable && len(reqs) > 0 {
 		ans, err := d.AskMany(reqs)
@@ -1044,7 +1165,8 @@ func c11Run(ctx *core.Ctx, env *c11Env, d interface {
 		if wantCopy != out.copyN || wantReenc != out.reencN {
 			ctx.Fail("L2", "path-counters-vs-mirror "+sig, fmt.Sprintf("the library took copy=%d reencode=%d, the Lean mirror predicts copy=%d reencode=%d (paths %v)", out.copyN, out.reencN, wantCopy, wantReenc, paths),
 				detail(map[string]any{"requests": reqs, "answers": ans}))
-		} else if allFast && fmt.Sprint(sizes) != fmt.Sprint(rowGroupSizes(outInfo)) {
+		} else if allFast && fmt.Sprint(append(c11Split(int64(c.prefix), c.b.MaxRows), sizes...)) != fmt.Sprint(rowGroupSizes(outInfo)) {
+			sizes = append(c11Split(int64(c.prefix), c.b.MaxRows), sizes...)
 			ctx.Fail("L2", "row-groups-vs-mirror "+sig, fmt.Sprintf("output row groups %v, the mirror's plan gives %v", rowGroupSizes(outInfo), sizes),
 				detail(map[string]any{"requests": reqs, "answers": ans}))
 		}
@@ -1100,7 +1222,7 @@ func c11WriteFile(e *gen.Entry, rows reflect.Value, cfg *c11Cfg, extra ...parque
 	return buf.Bytes(), err
 }
 
-var c11KindNames = []string{"file", "buffer", "range", "multi", "merged-unsorted", "merged-sorted", "merged-dedup", "dedup", "converted", "foreign", "foreign-skip", "multi-wrapper"}
+var c11KindNames = []string{"file", "buffer", "range", "multi", "merged-unsorted", "merged-sorted", "merged-dedup", "dedup", "converted", "foreign", "foreign-skip", "multi-wrapper", "merged-packed"}
 
 func c11Build(ctx *core.Ctx, env *c11Env, e *gen.Entry, r *rand.Rand, kind string, n int) *c11Case {
 	prof := &gen.Profile{NullProb: []float64{0.1, 0.5}[r.Intn(2)], MaxLen: 1 + r.Intn(3), SmallDomain: r.Intn(2) == 0}
@@ -1272,6 +1394,86 @@ func c11Build(ctx *core.Ctx, env *c11Env, e *gen.Entry, r *rand.Rand, kind strin
 			c.srcDesc = fmt.Sprintf("MergeRowGroups of %d without sorting columns", len(children))
 			c.schema = m.Schema()
 		}
+	case "merged-packed":
+		// MergeRowGroups of 2-4 sorted files / sorted buffers with pairwise disjoint key ranges:
+		// a sortedSegmentRowGroup whose segments writeSegmentsPacked packs column by column; the
+		// destination's MaxRowsPerRowGroup sits around the total and it already buffers rows
+		key, col, typ, ok := c11SortKey(e.Schema)
+		if !ok {
+			return fail("no-sort-key", nil)
+		}
+		rows = c11SortRows(e, rows, col, typ)
+		texts(rows)
+		var changes []int // positions where the key changes
+		{
+			var prev parquet.Value
+			for i := 0; i < n; i++ {
+				var k parquet.Value
+				for _, v := range e.Schema.Deconstruct(nil, rows.Index(i).Addr().Interface()) {
+					if v.Column() == col {
+						k = v.Clone()
+					}
+				}
+				if i > 0 && typ.Compare(prev, k) != 0 {
+					changes = append(changes, i)
+				}
+				prev = k
+			}
+		}
+		if len(changes) == 0 {
+			return fail("single-key", nil)
+		}
+		r.Shuffle(len(changes), func(i, j int) { changes[i], changes[j] = changes[j], changes[i] })
+		ncut := 1 + r.Intn(3)
+		if ncut > len(changes) {
+			ncut = len(changes)
+		}
+		cuts := append([]int{0, n}, changes[:ncut]...)
+		sort.Ints(cuts)
+		sortingW := parquet.SortingWriterConfig(parquet.SortingColumns(parquet.Ascending(key)))
+		sortingB := parquet.SortingRowGroupConfig(parquet.SortingColumns(parquet.Ascending(key)))
+		var children []parquet.RowGroup
+		for i := 0; i+1 < len(cuts); i++ {
+			part := rows.Slice(cuts[i], cuts[i+1])
+			if r.Intn(4) == 0 {
+				g, err := e.NewGenericBuffer(part.Interface(), sortingB)
+				if err != nil {
+					return fail("buffer", err)
+				}
+				children = append(children, g)
+				continue
+			}
+			cfg := a
+			if i > 0 && r.Intn(2) == 0 {
+				cfg = c11RandCfg(r, e.Schema)
+			}
+			cf := openRows(part, cfg, sortingW, parquet.MaxRowsPerRowGroup(1<<20))
+			if cf == nil {
+				return fail("source-write", nil)
+			}
+			children = append(children, cf.rgs...)
+		}
+		r.Shuffle(len(children), func(i, j int) { children[i], children[j] = children[j], children[i] })
+		m, err := parquet.MergeRowGroups(children, sortingB)
+		if err != nil {
+			return fail("merge", err)
+		}
+		c.srcs = []*c11Source{{kind: kind, rg: m}}
+		c.srcDesc = fmt.Sprintf("MergeRowGroups of %d disjoint sorted files/buffers by %s (%T)", len(children), key, m)
+		c.schema = m.Schema()
+		if leaf, ok := c.schema.Lookup(key); ok {
+			c.keyCol = leaf.ColumnIndex
+		}
+		maxRows := []int64{int64(n), int64(n) + 1, int64(n) - 1, 2 * int64(n), int64(n)/2 + 1}[r.Intn(5)]
+		if maxRows < 1 {
+			maxRows = 1
+		}
+		nb := *c.b
+		nb.Opts = append(append([]parquet.WriterOption{}, c.b.Opts...), parquet.MaxRowsPerRowGroup(maxRows))
+		nb.MaxRows = maxRows
+		nb.Desc = c.b.Desc + fmt.Sprintf(" maxrows:=%d", maxRows)
+		c.b = &nb
+		c.prefix = []int{1, 2, n/3 + 1, n}[r.Intn(4)]
 	case "merged-sorted", "merged-dedup", "dedup":
 		key, col, typ, ok := c11SortKey(e.Schema)
 		if !ok {
@@ -1365,6 +1567,9 @@ func c11Build(ctx *core.Ctx, env *c11Env, e *gen.Entry, r *rand.Rand, kind strin
 	if len(c.srcs) == 0 {
 		return fail("no-row-groups", nil)
 	}
+	if kind != "merged-packed" && r.Intn(3) == 0 {
+		c.prefix = []int{1, 2, 7, 50, n}[r.Intn(5)]
+	}
 	return c
 }
 
@@ -1406,7 +1611,7 @@ func c11F9(ctx *core.Ctx, env *c11Env, d interface {
 }
 
 func RunC11(ctx *core.Ctx) {
-	ctx.SetRule("catalogue struct types x random rows x source configuration A x destination configuration B (page version, codec, page buffer, MaxRowsPerRowGroup, dictionary limit, DataPageStatistics on/off, SkipPageStatistics, SkipPageBounds, deprecated statistics, ColumnIndexSizeLimit 1..64, default encodings, bloom filters; B either drawn independently or A with one axis changed) x source kind {file row groups, Buffer/GenericBuffer, row-range views, MultiRowGroup (files, views, buffers, foreign children), MergeRowGroups unsorted / sorted / dropping duplicates, dedup wrapper, ConvertRowGroup, foreign RowGroup, row-dropping foreign RowGroup, MultiRowGroup over a row-dropping child}; non-trivial = at least 2 rows and A differs from B")
+	ctx.SetRule("catalogue struct types x random rows x source configuration A x destination configuration B (page version, codec, page buffer, MaxRowsPerRowGroup, dictionary limit, DataPageStatistics on/off, SkipPageStatistics, SkipPageBounds, deprecated statistics, ColumnIndexSizeLimit 1..64, default encodings, bloom filters; B either drawn independently or A with one axis changed) x source kind {file row groups, Buffer/GenericBuffer, row-range views, MultiRowGroup (files, views, buffers, foreign children), MergeRowGroups unsorted / sorted / dropping duplicates, dedup wrapper, ConvertRowGroup, foreign RowGroup, row-dropping foreign RowGroup, MultiRowGroup over a row-dropping child, MergeRowGroups of 2-4 disjoint sorted files/buffers (packed segments) with MaxRowsPerRowGroup around the total} x destination writer already buffering rows from WriteRows (one case in three, always for packed merges); oracle on the output: rows/order, settings, every row group <= MaxRowsPerRowGroup, configured bloom filters contain every stored value; non-trivial = at least 2 rows and A differs from B")
 	// fixed case first (corpus)
 	{
 		env := &c11Env{chunkOf: map[*parquet.FileColumnChunk]*c11Chunk{}}
@@ -1428,8 +1633,15 @@ func RunC11(ctx *core.Ctx) {
 			d := ctx.Driver()
 			r := ctx.Rand("c11/" + e.Name)
 			for ki, kind := range c11KindNames {
-				for k := 0; k < per; k++ {
+				reps := per
+				if kind == "merged-packed" {
+					reps = 4 * per // few catalogue types have a sort key
+				}
+				for k := 0; k < reps; k++ {
 					n := []int{1, 2, 3, 9, 33, 64, 65, 100, 130, 257}[r.Intn(10)]
+					if kind == "merged-packed" && n < 9 {
+						n = 9 + 8*n
+					}
 					env := &c11Env{chunkOf: map[*parquet.FileColumnChunk]*c11Chunk{}}
 					var c *c11Case
 					func() {
